@@ -27,6 +27,11 @@
 (*    terminate minutes after drain, samaritan.go:121-131).  The code has  *)
 (*    NO idle limit (IdleLimit = 0); with a finite IdleLimit the parent    *)
 (*    closes a silent connection and the request after the pause is lost.  *)
+(*  - pipelining: the package's own child waits for each reply, but the  *)
+(*    protocol does not force it: a child may write its next request while *)
+(*    the previous step is still being performed (PipelinedChild).  The    *)
+(*    parent performs strictly in order; a step that is moved off the      *)
+(*    serving loop (AsyncDrain) lets a later request overtake it.          *)
 (*  - faults: accept on the control socket may fail transiently while a    *)
 (*    child is connecting (descriptor shortage, EMFILE); the code retries  *)
 (*    after a delay (AcceptSurvives, hotrestart.go:86-98); a loop that     *)
@@ -41,7 +46,10 @@ CONSTANTS Children,     \* 1..N, connect in this order
           MaxPause,     \* bound on the abstract pause units a child accumulates between two requests (0: no pauses)
           IdleLimit,    \* 0: the parent never gives up on a silent child (the code); n > 0: it closes after n pause units
           MaxFaults,    \* bound on the number of transient accept failures (0: none)
-          AcceptSurvives \* TRUE: the accept loop retries after a transient failure (the code); FALSE: it exits
+          AcceptSurvives, \* TRUE: the accept loop retries after a transient failure (the code); FALSE: it exits
+          PipelinedChild, \* TRUE: a child may send its next request before it has read the reply to the previous one
+          AsyncDrain      \* FALSE: every step is performed inline, strictly in order (the code); TRUE: the drain step and
+                          \* its reply run beside the serving loop, which goes on reading
 
 Requests  == {"admin", "conf", "drain", "term", "unknown"}
 CallSteps == {"admin", "conf", "drain"}          \* steps that are Instance calls made BEFORE the reply
@@ -63,9 +71,10 @@ VARIABLES
   calls,    \* steps performed by the parent, in order
   idle,     \* per child: pause units since its last request while it is connected and silent
   pclosed,  \* per child: the parent closed the connection (only with a finite IdleLimit)
-  faults    \* transient accept failures so far
+  faults,   \* transient accept failures so far
+  bg        \* only with AsyncDrain: <<child, phase>> of the drain running beside the serving loop ("step" | "reply"), or <<>>
 
-vars == <<par, exited, pc, serving, inhand, queue, st, c2p, p2c, sent, got, reqlog, calls, idle, pclosed, faults>>
+vars == <<par, exited, pc, serving, inhand, queue, st, c2p, p2c, sent, got, reqlog, calls, idle, pclosed, faults, bg>>
 
 Sum(f) == LET RECURSIVE S(_)
               S(D) == IF D = {} THEN 0 ELSE LET x == CHOOSE x \in D : TRUE IN f[x] + S(D \ {x})
@@ -81,7 +90,7 @@ Init ==
   /\ c2p = [c \in Children |-> <<>>] /\ p2c = [c \in Children |-> <<>>]
   /\ sent = [c \in Children |-> <<>>] /\ got = [c \in Children |-> <<>>]
   /\ reqlog = <<>> /\ calls = <<>>
-  /\ idle = [c \in Children |-> 0] /\ pclosed = [c \in Children |-> FALSE] /\ faults = 0
+  /\ idle = [c \in Children |-> 0] /\ pclosed = [c \in Children |-> FALSE] /\ faults = 0 /\ bg = <<>>
 
 (* ------------------------------------------------------------------ children *)
 MayConnect(c) ==
@@ -92,68 +101,74 @@ ChildConnect(c) ==
   /\ MayConnect(c) /\ ~exited
   /\ st' = [st EXCEPT ![c] = "conn"]
   /\ queue' = Append(queue, c)
-  /\ UNCHANGED <<par, exited, pc, serving, inhand, c2p, p2c, sent, got, reqlog, calls, idle, pclosed, faults>>
+  /\ UNCHANGED <<par, exited, pc, serving, inhand, c2p, p2c, sent, got, reqlog, calls, idle, pclosed, faults, bg>>
 
 ChildRefused(c) ==                       \* nobody listens any more
   /\ MayConnect(c) /\ exited
   /\ st' = [st EXCEPT ![c] = "eof"]
-  /\ UNCHANGED <<par, exited, pc, serving, inhand, queue, c2p, p2c, sent, got, reqlog, calls, idle, pclosed, faults>>
+  /\ UNCHANGED <<par, exited, pc, serving, inhand, queue, c2p, p2c, sent, got, reqlog, calls, idle, pclosed, faults, bg>>
+
+Unanswered(c) == Len(SelectSeq(sent[c], LAMBDA t : t # "bad")) - Len(got[c])
 
 ChildSend(c, t) ==
-  /\ st[c] = "conn" /\ NSent < MaxReq
+  /\ NSent < MaxReq
+  /\ \/ st[c] = "conn"
+     \/ PipelinedChild /\ st[c] = "wait" /\ Unanswered(c) < 2
   /\ c2p' = [c2p EXCEPT ![c] = Append(@, t)]
   /\ sent' = [sent EXCEPT ![c] = Append(@, t)]
   /\ st' = [st EXCEPT ![c] = "wait"]
   /\ idle' = [idle EXCEPT ![c] = 0]
-  /\ UNCHANGED <<par, exited, pc, serving, inhand, queue, p2c, got, reqlog, calls, pclosed, faults>>
+  /\ UNCHANGED <<par, exited, pc, serving, inhand, queue, p2c, got, reqlog, calls, pclosed, faults, bg>>
 
 ChildSendBad(c) ==                       \* a frame the documented format rejects; nothing to wait for
   /\ st[c] = "conn" /\ NSent < MaxReq
   /\ c2p' = [c2p EXCEPT ![c] = Append(@, "bad")]
   /\ sent' = [sent EXCEPT ![c] = Append(@, "bad")]
   /\ idle' = [idle EXCEPT ![c] = 0]
-  /\ UNCHANGED <<par, exited, pc, serving, inhand, queue, st, p2c, got, reqlog, calls, pclosed, faults>>
+  /\ UNCHANGED <<par, exited, pc, serving, inhand, queue, st, p2c, got, reqlog, calls, pclosed, faults, bg>>
 
 ChildRecv(c) ==
   /\ st[c] = "wait" /\ p2c[c] # <<>>
   /\ got' = [got EXCEPT ![c] = Append(@, Head(p2c[c]))]
   /\ p2c' = [p2c EXCEPT ![c] = Tail(@)]
-  /\ st' = [st EXCEPT ![c] = "conn"]
-  /\ UNCHANGED <<par, exited, pc, serving, inhand, queue, c2p, sent, reqlog, calls, idle, pclosed, faults>>
+  /\ st' = [st EXCEPT ![c] = IF Unanswered(c) = 1 THEN "conn" ELSE "wait"]
+  /\ UNCHANGED <<par, exited, pc, serving, inhand, queue, c2p, sent, reqlog, calls, idle, pclosed, faults, bg>>
 
 ChildDrop(c) ==                          \* close / crash of the child at any point
   /\ st[c] \in {"conn", "wait"}
   /\ st' = [st EXCEPT ![c] = "gone"]
   /\ p2c' = [p2c EXCEPT ![c] = <<>>]
-  /\ UNCHANGED <<par, exited, pc, serving, inhand, queue, c2p, sent, got, reqlog, calls, idle, pclosed, faults>>
+  /\ UNCHANGED <<par, exited, pc, serving, inhand, queue, c2p, sent, got, reqlog, calls, idle, pclosed, faults, bg>>
 
 ChildPause(c) ==                         \* time passes: the child stays connected and silent
   /\ st[c] = "conn" /\ ~exited /\ idle[c] < MaxPause
   /\ idle' = [idle EXCEPT ![c] = @ + 1]
-  /\ UNCHANGED <<par, exited, pc, serving, inhand, queue, st, c2p, p2c, sent, got, reqlog, calls, pclosed, faults>>
+  /\ UNCHANGED <<par, exited, pc, serving, inhand, queue, st, c2p, p2c, sent, got, reqlog, calls, pclosed, faults, bg>>
 
 ChildSeesEOF(c) ==                       \* the old process is gone (or closed this connection) and nothing is left to read
   /\ st[c] \in {"conn", "wait"} /\ (exited \/ pclosed[c]) /\ p2c[c] = <<>>
   /\ st' = [st EXCEPT ![c] = "eof"]
-  /\ UNCHANGED <<par, exited, pc, serving, inhand, queue, c2p, p2c, sent, got, reqlog, calls, idle, pclosed, faults>>
+  /\ UNCHANGED <<par, exited, pc, serving, inhand, queue, c2p, p2c, sent, got, reqlog, calls, idle, pclosed, faults, bg>>
 
 (* ------------------------------------------------------------------ parent *)
 ParentAccept ==
   /\ ~exited /\ pc = "accept" /\ queue # <<>>
   /\ serving' = Head(queue) /\ queue' = Tail(queue) /\ pc' = "read"
-  /\ UNCHANGED <<par, exited, inhand, st, c2p, p2c, sent, got, reqlog, calls, idle, pclosed, faults>>
+  /\ UNCHANGED <<par, exited, inhand, st, c2p, p2c, sent, got, reqlog, calls, idle, pclosed, faults, bg>>
 
 ParentRejectFrame ==                     \* readMessage fails: logged, loop continues (hotrestart.go:133-143)
   /\ ~exited /\ pc = "read" /\ c2p[serving] # <<>> /\ Head(c2p[serving]) = "bad"
   /\ c2p' = [c2p EXCEPT ![serving] = Tail(@)]
-  /\ UNCHANGED <<par, exited, pc, serving, inhand, queue, st, p2c, sent, got, reqlog, calls, idle, pclosed, faults>>
+  /\ UNCHANGED <<par, exited, pc, serving, inhand, queue, st, p2c, sent, got, reqlog, calls, idle, pclosed, faults, bg>>
 
 ParentRead ==
   /\ ~exited /\ pc = "read" /\ c2p[serving] # <<>> /\ Head(c2p[serving]) # "bad"
   /\ LET t == Head(c2p[serving]) IN
        /\ inhand' = t
        /\ reqlog' = Append(reqlog, <<serving, t>>)
-       /\ pc' = IF t \in CallSteps THEN "step" ELSE "reply"
+       /\ IF AsyncDrain /\ t = "drain" /\ bg = <<>>
+            THEN pc' = "read" /\ bg' = <<serving, "step">>
+            ELSE pc' = (IF t \in CallSteps THEN "step" ELSE "reply") /\ bg' = bg
   /\ c2p' = [c2p EXCEPT ![serving] = Tail(@)]
   /\ UNCHANGED <<par, exited, serving, queue, st, p2c, sent, got, calls, idle, pclosed, faults>>
 
@@ -161,20 +176,33 @@ ParentEOF ==                             \* read returns end-of-stream: back to 
   /\ ReturnOnEOF
   /\ ~exited /\ pc = "read" /\ c2p[serving] = <<>> /\ st[serving] = "gone"
   /\ pc' = "accept" /\ serving' = 0 /\ inhand' = ""
-  /\ UNCHANGED <<par, exited, queue, st, c2p, p2c, sent, got, reqlog, calls, idle, pclosed, faults>>
+  /\ UNCHANGED <<par, exited, queue, st, c2p, p2c, sent, got, reqlog, calls, idle, pclosed, faults, bg>>
 
 ParentIdleClose ==                       \* only with a finite IdleLimit: give up on a silent child
   /\ IdleLimit > 0
   /\ ~exited /\ pc = "read" /\ c2p[serving] = <<>> /\ st[serving] = "conn" /\ idle[serving] >= IdleLimit
   /\ pclosed' = [pclosed EXCEPT ![serving] = TRUE]
   /\ pc' = "accept" /\ serving' = 0 /\ inhand' = ""
-  /\ UNCHANGED <<par, exited, queue, st, c2p, p2c, sent, got, reqlog, calls, idle, faults>>
+  /\ UNCHANGED <<par, exited, queue, st, c2p, p2c, sent, got, reqlog, calls, idle, faults, bg>>
 
 AcceptFault ==                           \* environment: accept fails transiently while a child is connecting
   /\ ~exited /\ pc = "accept" /\ queue # <<>> /\ faults < MaxFaults
   /\ faults' = faults + 1
   /\ pc' = IF AcceptSurvives THEN "accept" ELSE "stopped"
-  /\ UNCHANGED <<par, exited, serving, inhand, queue, st, c2p, p2c, sent, got, reqlog, calls, idle, pclosed>>
+  /\ UNCHANGED <<par, exited, serving, inhand, queue, st, c2p, p2c, sent, got, reqlog, calls, idle, pclosed, bg>>
+
+BgStep ==                                \* only with AsyncDrain: the drain, beside the serving loop
+  /\ ~exited /\ bg # <<>> /\ bg[2] = "step"
+  /\ calls' = Append(calls, "drain")
+  /\ par' = [par EXCEPT !.accepting = FALSE]
+  /\ bg' = <<bg[1], "reply">>
+  /\ UNCHANGED <<exited, pc, serving, inhand, queue, st, c2p, p2c, sent, got, reqlog, idle, pclosed, faults>>
+
+BgReply ==
+  /\ ~exited /\ bg # <<>> /\ bg[2] = "reply"
+  /\ p2c' = IF st[bg[1]] = "gone" THEN p2c ELSE [p2c EXCEPT ![bg[1]] = Append(@, "drainReply")]
+  /\ bg' = <<>>
+  /\ UNCHANGED <<par, exited, pc, serving, inhand, queue, st, c2p, sent, got, reqlog, calls, idle, pclosed, faults>>
 
 ParentStep ==
   /\ ~exited /\ pc = "step"
@@ -183,28 +211,28 @@ ParentStep ==
               [] inhand = "conf"  -> [par EXCEPT !.conf = FALSE]
               [] OTHER            -> [par EXCEPT !.accepting = FALSE]
   /\ pc' = "reply"
-  /\ UNCHANGED <<exited, serving, inhand, queue, st, c2p, p2c, sent, got, reqlog, idle, pclosed, faults>>
+  /\ UNCHANGED <<exited, serving, inhand, queue, st, c2p, p2c, sent, got, reqlog, idle, pclosed, faults, bg>>
 
 ParentReply ==                           \* a reply to a vanished child is lost (EPIPE ignored)
   /\ ~exited /\ pc = "reply"
   /\ p2c' = IF st[serving] = "gone" THEN p2c ELSE [p2c EXCEPT ![serving] = Append(@, Reply(inhand))]
   /\ pc' = IF inhand = "term" THEN "kill" ELSE "read"
-  /\ UNCHANGED <<par, exited, serving, inhand, queue, st, c2p, sent, got, reqlog, calls, idle, pclosed, faults>>
+  /\ UNCHANGED <<par, exited, serving, inhand, queue, st, c2p, sent, got, reqlog, calls, idle, pclosed, faults, bg>>
 
 ParentKill ==                            \* kill(getpid(), SIGTERM) after the reply
   /\ ~exited /\ pc = "kill"
   /\ calls' = Append(calls, "term")
   /\ par' = [par EXCEPT !.terminated = TRUE]
   /\ pc' = "read"
-  /\ UNCHANGED <<exited, serving, inhand, queue, st, c2p, p2c, sent, got, reqlog, idle, pclosed, faults>>
+  /\ UNCHANGED <<exited, serving, inhand, queue, st, c2p, p2c, sent, got, reqlog, idle, pclosed, faults, bg>>
 
 ParentExit ==                            \* the signalled process shuts down, at any later moment
   /\ ~exited /\ par.terminated
   /\ exited' = TRUE
-  /\ UNCHANGED <<par, pc, serving, inhand, queue, st, c2p, p2c, sent, got, reqlog, calls, idle, pclosed, faults>>
+  /\ UNCHANGED <<par, pc, serving, inhand, queue, st, c2p, p2c, sent, got, reqlog, calls, idle, pclosed, faults, bg>>
 
 ParentNext == ParentAccept \/ ParentRejectFrame \/ ParentRead \/ ParentEOF \/ ParentIdleClose
-              \/ ParentStep \/ ParentReply \/ ParentKill
+              \/ ParentStep \/ ParentReply \/ ParentKill \/ BgStep \/ BgReply
 ParentCanMove == ENABLED ParentNext
 
 ChildNext(c) ==
@@ -232,7 +260,9 @@ IsPrefix(a, b) == Len(a) <= Len(b) /\ SubSeq(b, 1, Len(a)) = a
 Good(s) == SelectSeq(s, LAMBDA t : t # "bad")      \* the well-formed requests of a child, in order
 
 \* step of the request in hand that has not been performed yet
-Pending == IF pc = "step" \/ (pc \in {"reply", "kill"} /\ inhand = "term") THEN <<inhand>> ELSE <<>>
+\* (with AsyncDrain: the drain running beside the loop was requested before whatever the loop has in hand)
+Pending == (IF bg # <<>> /\ bg[2] = "step" THEN <<"drain">> ELSE <<>>)
+           \o (IF pc = "step" \/ (pc \in {"reply", "kill"} /\ inhand = "term") THEN <<inhand>> ELSE <<>>)
 
 TypeOK ==
   /\ pc \in {"accept", "read", "step", "reply", "kill", "stopped"}
